@@ -4,8 +4,11 @@ import A2lVerif.Lemmas.IfDataVals
 
 `balanced` is an independent reading of "matching /begin and /end": a scanner with an explicit stack of open tags.
 The recursive-descent fallback (`parse_unknown_ifdata_start`, `parse_unknown_ifdata`, `parse_unknown_taggedstruct`)
-accepts exactly the balanced content (given that every Number token is a number and, in strict mode, every identifier
-is a valid identifier), and it keeps every value.
+accepts exactly the balanced content in which no more than `MAX_NESTING_DEPTH` blocks are open at the same time (given
+that every Number token is a number and, in strict mode, every identifier is a valid identifier), and it keeps every
+value. `scanV` is the same scanner with the limit built in: its three verdicts (`accept`, `reject`, `tooDeep`) are
+exactly the three ways in which the fallback can end (a result, an error other than `NestingTooDeep`, `NestingTooDeep`);
+whichever problem comes first in the token stream decides, in the scanner as in the parser.
 -/
 namespace A2l.IfData
 open A2l.Tree A2l.Aml A2l.G A2l.Sc
@@ -47,6 +50,53 @@ def scan : Mode → List (List Char) → List PTok → Bool
     `/begin TAG items /end TAG`) followed by a `/end` -/
 def balanced (toks : Array PTok) (p : Nat) : Bool := scan .normal [] (toks.toList.drop p)
 
+/-- the verdict of the scanner with a limit on the number of open blocks -/
+inductive Verdict where
+  | accept | reject | tooDeep
+  deriving DecidableEq, Repr
+
+/-- `scan` with a limit: the tag behind a `/begin` that would open block number `lim + 1` ends the scan with `tooDeep` -/
+def scanV (lim : Nat) : Mode → List (List Char) → List PTok → Verdict
+  | _, _, [] => .reject
+  | .normal, st, t :: rest =>
+    if t.ty = 1 then scanV lim .beginTag st rest
+    else if t.ty = 2 then
+      match st with
+      | [] => .accept
+      | _ :: _ => scanV lim .endTag st rest
+    else scanV lim .normal st rest
+  | .beginTag, st, t :: rest =>
+    if t.ty = 6 then scanV lim .beginTag st rest
+    else if t.ty = 0 then
+      if lim ≤ st.length then .tooDeep else scanV lim .normal (t.text :: st) rest
+    else .reject
+  | .endTag, st, t :: rest =>
+    if t.ty = 6 then scanV lim .endTag st rest
+    else if t.ty = 0 then
+      match st with
+      | tag :: st' => if t.text = tag then scanV lim .normal st' rest else .reject
+      | [] => .reject
+    else .reject
+
+/-- an independent reading of "not nested too deep": a counter of the open blocks that looks at the `/begin` and
+    `/end` tokens only (no tags, no stack). `cur` blocks are open in front of the list; the walk ends at the `/end` that
+    closes the content. No `/begin` is met while `lim` blocks are open. -/
+def depthOk (lim : Nat) : Nat → List PTok → Bool
+  | _, [] => true
+  | cur, t :: rest =>
+    if t.ty = 1 then decide (cur < lim) && depthOk lim (cur + 1) rest
+    else if t.ty = 2 then
+      match cur with
+      | 0 => true
+      | c + 1 => depthOk lim c rest
+    else depthOk lim cur rest
+
+/-- in the content that starts at position `p`, at most `MAX_NESTING_DEPTH` blocks are open at the same time -/
+def nestingOk (toks : Array PTok) (p : Nat) : Bool := depthOk maxNestingDepth 0 (toks.toList.drop p)
+
+/-- the verdict that corresponds to a parser error -/
+def verdictOf (k : DK) : Verdict := if k = .nestingTooDeep then .tooDeep else .reject
+
 /-- `get_integer::<i32>`, `::<i64>`, `::<u64>` or `get_double` reads the token -/
 def NumOk (t : PTok) : Prop :=
   (parseInt (intTyOf 2) t.text).isSome ∨ (parseInt (intTyOf 3) t.text).isSome ∨ (parseInt (intTyOf 7) t.text).isSome ∨
@@ -66,12 +116,14 @@ def AtomsOk (e : Env) : Prop :=
   ∀ (i : Nat) (t : PTok), e.toks[i]? = some t →
     t.ty ≤ 6 ∧ (t.ty = 5 → NumOk t) ∧ (t.ty = 0 → e.strict = true → IdentOk t)
 
-/-- the tokens consumed between `s` and `s'` do not change the state of the scanner -/
-def Neutral (e : Env) (s s' : PState) : Prop :=
-  ∀ st, scan .normal st (e.toks.toList.drop s.pos) = scan .normal st (e.toks.toList.drop s'.pos)
+/-- the tokens consumed between `s` and `s'` do not change the state of the scanner when `n` blocks are open -/
+def Neutral (e : Env) (n : Nat) (s s' : PState) : Prop :=
+  ∀ st : List (List Char), st.length = n →
+    scanV maxNestingDepth .normal st (e.toks.toList.drop s.pos) = scanV maxNestingDepth .normal st (e.toks.toList.drop s'.pos)
 
-/-- no continuation of the tokens from `s` on is balanced -/
-def Bad (e : Env) (s : PState) : Prop := ∀ st, scan .normal st (e.toks.toList.drop s.pos) = false
+/-- with `n` blocks open, the scanner's verdict on the tokens from `s` on is `v`, whatever the open tags are -/
+def Bad (e : Env) (n : Nat) (v : Verdict) (s : PState) : Prop :=
+  ∀ st : List (List Char), st.length = n → scanV maxNestingDepth .normal st (e.toks.toList.drop s.pos) = v
 
 /-! ## the scanner -/
 
@@ -92,6 +144,34 @@ theorem scan_endTag (st : List (List Char)) (t : PTok) (rest : List PTok) :
       else if t.ty = 0 then (match st with | tag :: st' => if t.text = tag then scan .normal st' rest else false | [] => false)
       else false := rfl
 
+theorem scanV_nil (lim : Nat) (m : Mode) (st : List (List Char)) : scanV lim m st [] = .reject := by cases m <;> rfl
+theorem scanV_normal (lim : Nat) (st : List (List Char)) (t : PTok) (rest : List PTok) :
+    scanV lim .normal st (t :: rest) =
+      if t.ty = 1 then scanV lim .beginTag st rest
+      else if t.ty = 2 then (match st with | [] => .accept | _ :: _ => scanV lim .endTag st rest)
+      else scanV lim .normal st rest := rfl
+theorem scanV_beginTag (lim : Nat) (st : List (List Char)) (t : PTok) (rest : List PTok) :
+    scanV lim .beginTag st (t :: rest) =
+      if t.ty = 6 then scanV lim .beginTag st rest
+      else if t.ty = 0 then (if lim ≤ st.length then .tooDeep else scanV lim .normal (t.text :: st) rest)
+      else .reject := rfl
+theorem scanV_endTag (lim : Nat) (st : List (List Char)) (t : PTok) (rest : List PTok) :
+    scanV lim .endTag st (t :: rest) =
+      if t.ty = 6 then scanV lim .endTag st rest
+      else if t.ty = 0 then
+        (match st with | tag :: st' => if t.text = tag then scanV lim .normal st' rest else .reject | [] => .reject)
+      else .reject := rfl
+
+theorem depthOk_cons (lim cur : Nat) (t : PTok) (rest : List PTok) :
+    depthOk lim cur (t :: rest) =
+      if t.ty = 1 then decide (cur < lim) && depthOk lim (cur + 1) rest
+      else if t.ty = 2 then (match cur with | 0 => true | c + 1 => depthOk lim c rest)
+      else depthOk lim cur rest := rfl
+
+theorem depthOk_skip (lim cur : Nat) {t : PTok} (rest : List PTok) (h1 : t.ty ≠ 1) (h2 : t.ty ≠ 2) :
+    depthOk lim cur (t :: rest) = depthOk lim cur rest := by
+  rw [depthOk_cons, if_neg h1, if_neg h2]
+
 theorem drop_eq_cons {toks : Array PTok} {p : Nat} {t : PTok} (h : toks[p]? = some t) :
     toks.toList.drop p = t :: toks.toList.drop (p + 1) := by
   have hlt := lt_of_getElem?_some h
@@ -106,35 +186,185 @@ theorem drop_eq_nil {toks : Array PTok} {p : Nat} (h : toks[p]? = none) : toks.t
   · rw [getElem?_pos toks p h'] at h; cases h
   · simpa using h'
 
-theorem Neutral.refl (s : PState) : Neutral e s s := fun _ => rfl
-theorem Neutral.trans {s s1 s2 : PState} (h1 : Neutral e s s1) (h2 : Neutral e s1 s2) : Neutral e s s2 :=
-  fun st => (h1 st).trans (h2 st)
-theorem Neutral.samePos {s s1 s2 : PState} (h : Neutral e s s1) (hp : s2.pos = s1.pos) : Neutral e s s2 := by
+theorem Neutral.refl {n : Nat} (s : PState) : Neutral e n s s := fun _ _ => rfl
+theorem Neutral.trans {n : Nat} {s s1 s2 : PState} (h1 : Neutral e n s s1) (h2 : Neutral e n s1 s2) : Neutral e n s s2 :=
+  fun st hst => (h1 st hst).trans (h2 st hst)
+theorem Neutral.samePos {n : Nat} {s s1 s2 : PState} (h : Neutral e n s s1) (hp : s2.pos = s1.pos) : Neutral e n s s2 := by
   unfold Neutral at *; rw [hp]; exact h
-theorem Neutral.fromPos {s s0 s2 : PState} (h : Neutral e s s2) (hp : s0.pos = s.pos) : Neutral e s0 s2 := by
+theorem Neutral.fromPos {n : Nat} {s s0 s2 : PState} (h : Neutral e n s s2) (hp : s0.pos = s.pos) : Neutral e n s0 s2 := by
   unfold Neutral at *; rw [hp]; exact h
-theorem Bad.of_neutral {s s1 : PState} (h : Neutral e s s1) (hb : Bad e s1) : Bad e s :=
-  fun st => (h st).trans (hb st)
-theorem Bad.fromPos {s s0 : PState} (h : Bad e s) (hp : s0.pos = s.pos) : Bad e s0 := by
+theorem Bad.of_neutral {n : Nat} {v : Verdict} {s s1 : PState} (h : Neutral e n s s1) (hb : Bad e n v s1) : Bad e n v s :=
+  fun st hst => (h st hst).trans (hb st hst)
+theorem Bad.fromPos {n : Nat} {v : Verdict} {s s0 : PState} (h : Bad e n v s) (hp : s0.pos = s.pos) : Bad e n v s0 := by
   unfold Bad at *; rw [hp]; exact h
 
 /-- an item token (not `/begin`, not `/end`) is skipped in normal mode -/
-theorem neutral_atom {s : PState} {t : PTok} (ht : e.toks[s.pos]? = some t) (h1 : t.ty ≠ 1) (h2 : t.ty ≠ 2) :
-    Neutral e s (adv s t) := by
-  intro st
-  show scan .normal st (e.toks.toList.drop s.pos) = scan .normal st (e.toks.toList.drop (s.pos + 1))
-  rw [drop_eq_cons ht, scan_normal, if_neg h1, if_neg h2]
+theorem neutral_atom {n : Nat} {s : PState} {t : PTok} (ht : e.toks[s.pos]? = some t) (h1 : t.ty ≠ 1) (h2 : t.ty ≠ 2) :
+    Neutral e n s (adv s t) := by
+  intro st _
+  show scanV _ .normal st (e.toks.toList.drop s.pos) = scanV _ .normal st (e.toks.toList.drop (s.pos + 1))
+  rw [drop_eq_cons ht, scanV_normal, if_neg h1, if_neg h2]
 
-theorem scan_comments (m : Mode) (st : List (List Char)) : ∀ (cs : List PTok) (l : List PTok), (∀ c ∈ cs, c.ty = 6) →
-    scan m st (cs ++ l) = scan m st l
+theorem scan_comments (lim : Nat) (m : Mode) (st : List (List Char)) : ∀ (cs : List PTok) (l : List PTok),
+    (∀ c ∈ cs, c.ty = 6) → scanV lim m st (cs ++ l) = scanV lim m st l
   | [], l, _ => rfl
   | c :: cs, l, h => by
     have hc : c.ty = 6 := h c (List.mem_cons_self ..)
-    have ih := scan_comments m st cs l (fun x hx => h x (List.mem_cons_of_mem _ hx))
+    have ih := scan_comments lim m st cs l (fun x hx => h x (List.mem_cons_of_mem _ hx))
     cases m with
-    | normal => rw [List.cons_append, scan_normal, if_neg (by omega), if_neg (by omega)]; exact ih
-    | beginTag => rw [List.cons_append, scan_beginTag, if_pos hc]; exact ih
-    | endTag => rw [List.cons_append, scan_endTag, if_pos hc]; exact ih
+    | normal => rw [List.cons_append, scanV_normal, if_neg (by omega), if_neg (by omega)]; exact ih
+    | beginTag => rw [List.cons_append, scanV_beginTag, if_pos hc]; exact ih
+    | endTag => rw [List.cons_append, scanV_endTag, if_pos hc]; exact ih
+
+/-! ### the scanner with the limit, the scanner without it, and the counter -/
+
+/-- on balanced content the verdict is `accept` or `tooDeep`, and the counter says which -/
+theorem scanV_of_scan (lim : Nat) : ∀ (l : List PTok) (m : Mode) (st : List (List Char)), scan m st l = true →
+    scanV lim m st l =
+      match m with
+      | .normal => if depthOk lim st.length l = true then .accept else .tooDeep
+      | .beginTag => if st.length < lim ∧ depthOk lim (st.length + 1) l = true then .accept else .tooDeep
+      | .endTag => if depthOk lim (st.length - 1) l = true then .accept else .tooDeep
+  | [], m, st, h => by rw [scan_nil] at h; cases h
+  | t :: rest, .normal, st, h => by
+    rw [scan_normal] at h
+    rw [scanV_normal]
+    dsimp only
+    rw [depthOk_cons]
+    by_cases h1 : t.ty = 1
+    · rw [if_pos h1] at h
+      rw [if_pos h1, if_pos h1, scanV_of_scan lim rest .beginTag st h]
+      simp only [Bool.and_eq_true, decide_eq_true_eq]
+    · rw [if_neg h1] at h
+      rw [if_neg h1, if_neg h1]
+      by_cases h2 : t.ty = 2
+      · rw [if_pos h2] at h
+        rw [if_pos h2, if_pos h2]
+        cases st with
+        | nil => rfl
+        | cons tag st' =>
+          dsimp only at h ⊢
+          rw [scanV_of_scan lim rest .endTag _ h]
+          rfl
+      · rw [if_neg h2] at h
+        rw [if_neg h2, if_neg h2, scanV_of_scan lim rest .normal st h]
+  | t :: rest, .beginTag, st, h => by
+    rw [scan_beginTag] at h
+    rw [scanV_beginTag]
+    dsimp only
+    by_cases h6 : t.ty = 6
+    · rw [if_pos h6] at h
+      rw [if_pos h6, depthOk_skip lim _ rest (by omega) (by omega), scanV_of_scan lim rest .beginTag st h]
+    · rw [if_neg h6] at h
+      rw [if_neg h6]
+      by_cases h0 : t.ty = 0
+      · rw [if_pos h0] at h
+        rw [if_pos h0, depthOk_skip lim _ rest (by omega) (by omega)]
+        by_cases hl : lim ≤ st.length
+        · rw [if_pos hl, if_neg (fun hc => absurd hc.1 (by omega))]
+        · rw [if_neg hl, scanV_of_scan lim rest .normal _ h]
+          dsimp only
+          have : st.length < lim := by omega
+          simp only [List.length_cons, this, true_and]
+      · rw [if_neg h0] at h; cases h
+  | t :: rest, .endTag, st, h => by
+    rw [scan_endTag] at h
+    rw [scanV_endTag]
+    dsimp only
+    by_cases h6 : t.ty = 6
+    · rw [if_pos h6] at h
+      rw [if_pos h6, depthOk_skip lim _ rest (by omega) (by omega), scanV_of_scan lim rest .endTag st h]
+    · rw [if_neg h6] at h
+      rw [if_neg h6]
+      by_cases h0 : t.ty = 0
+      · rw [if_pos h0] at h
+        rw [if_pos h0, depthOk_skip lim _ rest (by omega) (by omega)]
+        cases st with
+        | nil => cases h
+        | cons tag st' =>
+          dsimp only at h ⊢
+          by_cases htag : t.text = tag
+          · rw [if_pos htag] at h
+            rw [if_pos htag, scanV_of_scan lim rest .normal st' h]
+            simp only [List.length_cons, Nat.add_sub_cancel]
+          · rw [if_neg htag] at h; cases h
+      · rw [if_neg h0] at h; cases h
+
+/-- what the scanner with the limit accepts is balanced -/
+theorem scan_of_scanV (lim : Nat) : ∀ (l : List PTok) (m : Mode) (st : List (List Char)),
+    scanV lim m st l = .accept → scan m st l = true
+  | [], m, st, h => by rw [scanV_nil] at h; cases h
+  | t :: rest, .normal, st, h => by
+    rw [scanV_normal] at h
+    rw [scan_normal]
+    by_cases h1 : t.ty = 1
+    · rw [if_pos h1] at h ⊢; exact scan_of_scanV lim rest _ _ h
+    · rw [if_neg h1] at h ⊢
+      by_cases h2 : t.ty = 2
+      · rw [if_pos h2] at h ⊢
+        cases st with
+        | nil => rfl
+        | cons tag st' => exact scan_of_scanV lim rest _ _ h
+      · rw [if_neg h2] at h ⊢; exact scan_of_scanV lim rest _ _ h
+  | t :: rest, .beginTag, st, h => by
+    rw [scanV_beginTag] at h
+    rw [scan_beginTag]
+    by_cases h6 : t.ty = 6
+    · rw [if_pos h6] at h ⊢; exact scan_of_scanV lim rest _ _ h
+    · rw [if_neg h6] at h ⊢
+      by_cases h0 : t.ty = 0
+      · rw [if_pos h0] at h ⊢
+        by_cases hl : lim ≤ st.length
+        · rw [if_pos hl] at h; cases h
+        · rw [if_neg hl] at h; exact scan_of_scanV lim rest _ _ h
+      · rw [if_neg h0] at h; cases h
+  | t :: rest, .endTag, st, h => by
+    rw [scanV_endTag] at h
+    rw [scan_endTag]
+    by_cases h6 : t.ty = 6
+    · rw [if_pos h6] at h ⊢; exact scan_of_scanV lim rest _ _ h
+    · rw [if_neg h6] at h ⊢
+      by_cases h0 : t.ty = 0
+      · rw [if_pos h0] at h ⊢
+        cases st with
+        | nil => cases h
+        | cons tag st' =>
+          dsimp only at h ⊢
+          by_cases htag : t.text = tag
+          · rw [if_pos htag] at h ⊢; exact scan_of_scanV lim rest _ _ h
+          · rw [if_neg htag] at h; cases h
+      · rw [if_neg h0] at h; cases h
+
+/-- `accept` = balanced and not nested too deep -/
+theorem scanV_accept_iff (lim : Nat) (st : List (List Char)) (l : List PTok) :
+    scanV lim .normal st l = .accept ↔ scan .normal st l = true ∧ depthOk lim st.length l = true := by
+  constructor
+  · intro h
+    have hs := scan_of_scanV lim l _ _ h
+    refine ⟨hs, ?_⟩
+    rw [scanV_of_scan lim l _ _ hs] at h
+    dsimp only at h
+    split at h
+    · assumption
+    · cases h
+  · rintro ⟨hs, hd⟩
+    rw [scanV_of_scan lim l _ _ hs]
+    dsimp only
+    rw [if_pos hd]
+
+/-- `tooDeep` on balanced content = nested too deep -/
+theorem scanV_tooDeep_of (lim : Nat) (st : List (List Char)) (l : List PTok) (hs : scan .normal st l = true)
+    (hd : depthOk lim st.length l = false) : scanV lim .normal st l = .tooDeep := by
+  rw [scanV_of_scan lim l _ _ hs]
+  dsimp only
+  rw [if_neg (by rw [hd]; exact Bool.false_ne_true)]
+
+/-- what is not balanced is never accepted -/
+theorem scanV_ne_accept_of (lim : Nat) (st : List (List Char)) (l : List PTok) (hs : scan .normal st l = false) :
+    scanV lim .normal st l ≠ .accept := by
+  intro h
+  rw [scan_of_scanV lim l _ _ h] at hs
+  cases hs
 
 /-- the three ways `expect_token` can end: the token behind the comments has the expected type, the input ends
     behind the comments, or the token behind the comments has another type -/
@@ -266,47 +496,72 @@ theorem getString_at (ctx : Ctx) {s : PState} {t : PTok} (ht : e.toks[s.pos]? = 
 
 /-! ## what the three functions of the fallback do -/
 
-def UOk (e : Env) (f32 : List Char → Option (List Char)) (isB : Bool) (acc : List Gen) (s : PState) (g : Gen)
+/-! `n` is the number of blocks that are open where the function starts (the length of the scanner's stack). -/
+
+def UOk (e : Env) (f32 : List Char → Option (List Char)) (isB : Bool) (n : Nat) (acc : List Gen) (s : PState) (g : Gen)
     (s' : PState) : Prop :=
-  ∃ new, g = .struct 0 (acc.reverse ++ new) ∧ Rel e f32 s s' (valuesL new) ∧ Neutral e s s' ∧
+  ∃ new, g = .struct 0 (acc.reverse ++ new) ∧ Rel e f32 s s' (valuesL new) ∧ Neutral e n s s' ∧
     ∃ t, e.toks[s'.pos]? = some t ∧ (t.ty = 2 ∨ (isB = false ∧ t.ty = 1))
 
-def USpec (e : Env) (f32 : List Char → Option (List Char)) (isB : Bool) (acc : List Gen) (s : PState) :
+def USpec (e : Env) (f32 : List Char → Option (List Char)) (isB : Bool) (n : Nat) (acc : List Gen) (s : PState) :
     PRes Gen → Prop
-  | .ok g s' => UOk e f32 isB acc s g s'
-  | .err _ _ => Bad e s
+  | .ok g s' => UOk e f32 isB n acc s g s'
+  | .err d _ => Bad e n (verdictOf d.kind) s
   | .panic => True
   | .fuel => True
 
-def TSSpec (e : Env) (f32 : List Char → Option (List Char)) (s : PState) : PRes Gen → Prop
-  | .ok g s' => ∃ items, g = .taggedStruct items ∧ Rel e f32 s s' (valuesT items) ∧ Neutral e s s'
-  | .err _ _ => Bad e s
+def TSSpec (e : Env) (f32 : List Char → Option (List Char)) (n : Nat) (s : PState) : PRes Gen → Prop
+  | .ok g s' => ∃ items, g = .taggedStruct items ∧ Rel e f32 s s' (valuesT items) ∧ Neutral e n s s'
+  | .err d _ => Bad e n (verdictOf d.kind) s
   | .panic => True
   | .fuel => True
 
-def LSpec (e : Env) (f32 : List Char → Option (List Char)) (acc : List (TItem Gen)) (s : PState) :
+def LSpec (e : Env) (f32 : List Char → Option (List Char)) (n : Nat) (acc : List (TItem Gen)) (s : PState) :
     PRes (List (TItem Gen)) → Prop
-  | .ok items s' => ∃ new, items = acc.reverse ++ new ∧ Rel e f32 s s' (valuesT new) ∧ Neutral e s s' ∧
-      (∀ t, e.toks[s'.pos]? = some t → t.ty = 1 → Bad e s')
-  | .err _ _ => Bad e s
+  | .ok items s' => ∃ new, items = acc.reverse ++ new ∧ Rel e f32 s s' (valuesT new) ∧ Neutral e n s s' ∧
+      (∀ t, e.toks[s'.pos]? = some t → t.ty = 1 → Bad e n .reject s')
+  | .err d _ => Bad e n (verdictOf d.kind) s
   | .panic => True
   | .fuel => True
 
+/-- `parse_unknown_ifdata` at depth `dp ≤ MAX_NESTING_DEPTH`: inside a block (`isB`) `dp` blocks are open; the content of
+    a keyword item (`isB = false`) contains no blocks, so there the number of open blocks does not matter.
+    `parse_unknown_taggedstruct` at depth `dp` is entered at a `/begin` with `dp` blocks open. Its loop calls
+    `parse_unknown_ifdata` with `dp + 1` for keyword items as well; when `dp = MAX_NESTING_DEPTH` that call fails although
+    no block is opened, but the loop never gets there: its first item is a block, which fails first. -/
 structure AllSpec (e : Env) (f32 : List Char → Option (List Char)) (fuel : Nat) : Prop where
-  u : ∀ ctx isB acc s, s.pos ≤ e.toks.size → USpec e f32 isB acc s (unknownIfdata fuel ctx isB acc e s)
-  ts : ∀ ctx s, s.pos ≤ e.toks.size → TSSpec e f32 s (unknownTaggedstruct fuel ctx e s)
-  l : ∀ ctx acc s, s.pos ≤ e.toks.size → LSpec e f32 acc s (unknownTsLoop fuel ctx acc e s)
+  u : ∀ ctx isB dp n acc s, s.pos ≤ e.toks.size → dp ≤ maxNestingDepth → (isB = true → n = dp) →
+    USpec e f32 isB n acc s (unknownIfdata fuel ctx isB dp acc e s)
+  ts : ∀ ctx dp s, s.pos ≤ e.toks.size → dp ≤ maxNestingDepth → (∃ t, e.toks[s.pos]? = some t ∧ t.ty = 1) →
+    TSSpec e f32 dp s (unknownTaggedstruct fuel ctx dp e s)
+  l : ∀ ctx dp acc s, s.pos ≤ e.toks.size → (dp < maxNestingDepth ∨ ∃ t, e.toks[s.pos]? = some t ∧ t.ty = 1) →
+    LSpec e f32 dp acc s (unknownTsLoop fuel ctx dp acc e s)
 
 theorem allSpec_zero (f32 : List Char → Option (List Char)) : AllSpec e f32 0 := by
   constructor
-  · intro ctx isB acc s _; rw [unknownIfdata.eq_def]; trivial
-  · intro ctx s _; rw [unknownTaggedstruct.eq_def]; trivial
-  · intro ctx acc s _; rw [unknownTsLoop.eq_def]; trivial
+  · intro ctx isB dp n acc s _ _ _; rw [unknownIfdata.eq_def]; trivial
+  · intro ctx dp s _ _ _; rw [unknownTaggedstruct.eq_def]; trivial
+  · intro ctx dp acc s _ _; rw [unknownTsLoop.eq_def]; trivial
+
+/-- beyond the limit `parse_unknown_ifdata` fails at once, with `last_token_position` as the line and without touching
+    the parser state -/
+theorem unknownIfdata_deep (fuel : Nat) (ctx : Ctx) (isB : Bool) (dp : Nat) (acc : List Gen) (s : PState)
+    (h : maxNestingDepth < dp) :
+    unknownIfdata fuel ctx isB dp acc e s = .fuel ∨
+    unknownIfdata fuel ctx isB dp acc e s = .err ⟨.nestingTooDeep, s.lastLine⟩ s := by
+  cases fuel with
+  | zero => left; rw [unknownIfdata.eq_def]; rfl
+  | succ fuel =>
+    right
+    rw [unknownIfdata.eq_def]
+    dsimp only
+    rw [if_pos h]
+    rfl
 
 /-- one more element `x` read between `s` and `s1`, then the loop goes on from `s1` -/
-theorem USpec.step {f32 : List Char → Option (List Char)} {isB : Bool} {acc : List Gen} {s s1 : PState} {x : Gen}
-    {r : PRes Gen} (hrel : Rel e f32 s s1 (values false x)) (hn : Neutral e s s1)
-    (h : USpec e f32 isB (x :: acc) s1 r) : USpec e f32 isB acc s r := by
+theorem USpec.step {f32 : List Char → Option (List Char)} {isB : Bool} {n : Nat} {acc : List Gen} {s s1 : PState} {x : Gen}
+    {r : PRes Gen} (hrel : Rel e f32 s s1 (values false x)) (hn : Neutral e n s s1)
+    (h : USpec e f32 isB n (x :: acc) s1 r) : USpec e f32 isB n acc s r := by
   cases r with
   | ok g s' =>
     obtain ⟨new, hg, hr, hn', hstop⟩ := h
@@ -318,9 +573,9 @@ theorem USpec.step {f32 : List Char → Option (List Char)} {isB : Bool} {acc : 
   | fuel => trivial
 
 /-- tokens were skipped between `s` and `s1` without producing an element -/
-theorem USpec.skip {f32 : List Char → Option (List Char)} {isB : Bool} {acc : List Gen} {s s1 : PState}
-    {r : PRes Gen} (hrel : Rel e f32 s s1 []) (hn : Neutral e s s1)
-    (h : USpec e f32 isB acc s1 r) : USpec e f32 isB acc s r := by
+theorem USpec.skip {f32 : List Char → Option (List Char)} {isB : Bool} {n : Nat} {acc : List Gen} {s s1 : PState}
+    {r : PRes Gen} (hrel : Rel e f32 s s1 []) (hn : Neutral e n s s1)
+    (h : USpec e f32 isB n acc s1 r) : USpec e f32 isB n acc s r := by
   cases r with
   | ok g s' =>
     obtain ⟨new, hg, hr, hn', hstop⟩ := h
@@ -345,18 +600,19 @@ theorem rel_adv_comment {f32 : List Char → Option (List Char)} {s : PState} {t
   rw [span_step e.toks s.pos t ht, if_neg (by simp [h6])]
   exact All2.nil
 
-theorem bad_eof {s : PState} (h : e.toks[s.pos]? = none) : Bad e s := by
-  intro st
-  rw [drop_eq_nil h, scan_nil]
+theorem bad_eof {n : Nat} {s : PState} (h : e.toks[s.pos]? = none) : Bad e n .reject s := by
+  intro st _
+  rw [drop_eq_nil h, scanV_nil]
 
 /-- the Number cascade of `parse_unknown_ifdata` -/
 theorem u_number_spec {f32 : List Char → Option (List Char)} {fuel : Nat} (ih : AllSpec e f32 fuel)
-    {ctx : Ctx} {isB : Bool} {acc : List Gen} {s : PState} {t : PTok}
+    {ctx : Ctx} {isB : Bool} {dp n : Nat} (hdp : dp ≤ maxNestingDepth) (hn : isB = true → n = dp)
+    {acc : List Gen} {s : PState} {t : PTok}
     (ht : e.toks[s.pos]? = some t) (h5 : t.ty = 5)
     (K : Except Diag (Int × Bool) → PM Gen) (w : Nat)
-    (hok : ∀ v hex, K (.ok (v, hex)) = (getLineOffset >>= fun off => unknownIfdata fuel ctx isB (.int w off v hex :: acc)))
-    (herr : ∀ d, (parseInt (intTyOf w) t.text).isSome = false → USpec e f32 isB acc s (K (.error d) e (adv s t))) :
-    USpec e f32 isB acc s ((attempt (getInteger ctx w) >>= K) e s) := by
+    (hok : ∀ v hex, K (.ok (v, hex)) = (getLineOffset >>= fun off => unknownIfdata fuel ctx isB dp (.int w off v hex :: acc)))
+    (herr : ∀ d, (parseInt (intTyOf w) t.text).isSome = false → USpec e f32 isB n acc s (K (.error d) e (adv s t))) :
+    USpec e f32 isB n acc s ((attempt (getInteger ctx w) >>= K) e s) := by
   have hlt := lt_of_getElem?_some ht
   rw [bind_eq]
   unfold attempt
@@ -370,13 +626,15 @@ theorem u_number_spec {f32 : List Char → Option (List Char)} {fuel : Nat} (ih 
     refine spec_lineOffset trivial ?_
     intro off
     refine USpec.step (x := .int w off v hex) (rel_adv ht (by omega) ⟨h5, hp⟩) (neutral_atom ht (by omega) (by omega)) ?_
-    exact ih.u ctx isB _ _ hlt
+    exact ih.u ctx isB dp n _ _ hlt hdp hn
 
 theorem u_spec_step (f32 : List Char → Option (List Char)) (hat : AtomsOk e) {fuel : Nat} (ih : AllSpec e f32 fuel)
-    (ctx : Ctx) (isB : Bool) (acc : List Gen) (s : PState) (hs : s.pos ≤ e.toks.size) :
-    USpec e f32 isB acc s (unknownIfdata (fuel + 1) ctx isB acc e s) := by
+    (ctx : Ctx) (isB : Bool) (dp n : Nat) (acc : List Gen) (s : PState) (hs : s.pos ≤ e.toks.size)
+    (hdp : dp ≤ maxNestingDepth) (hn : isB = true → n = dp) :
+    USpec e f32 isB n acc s (unknownIfdata (fuel + 1) ctx isB dp acc e s) := by
   rw [unknownIfdata.eq_def]
   dsimp only
+  rw [if_neg (by omega)]
   simp only [peekToken_bind]
   cases ht : e.toks[s.pos]? with
   | none => exact bad_eof ht
@@ -394,7 +652,7 @@ theorem u_spec_step (f32 : List Char → Option (List Char)) (hat : AtomsOk e) {
         intro off
         refine USpec.step (x := .enumItem off t.text) (getIdentifier_ok f32 h)
           ((neutral_atom ht (by omega) (by omega)).samePos (by rw [hp]; rfl)) ?_
-        exact ih.u ctx isB _ s1 (by omega)
+        exact ih.u ctx isB dp n _ s1 (by omega) hdp hn
       · exact absurd (hid h0 hst) hbad
     rw [if_neg h0]
     by_cases h4 : t.ty = 4
@@ -405,22 +663,22 @@ theorem u_spec_step (f32 : List Char → Option (List Char)) (hat : AtomsOk e) {
       refine spec_lineOffset trivial ?_
       intro off
       refine USpec.step (x := .str off r) (getString_ok f32 h) (neutral_atom ht (by omega) (by omega)) ?_
-      exact ih.u ctx isB _ _ hlt
+      exact ih.u ctx isB dp n _ _ hlt hdp hn
     rw [if_neg h4]
     by_cases h5 : t.ty = 5
     · rw [if_pos h5]
-      have hback : ∀ (G : PM Gen), USpec e f32 isB acc s (G e { s with lastLine := t.line }) →
-          USpec e f32 isB acc s ((undoGetToken >>= fun _ => G) e (adv s t)) := by
+      have hback : ∀ (G : PM Gen), USpec e f32 isB n acc s (G e { s with lastLine := t.line }) →
+          USpec e f32 isB n acc s ((undoGetToken >>= fun _ => G) e (adv s t)) := by
         intro G hG
         rw [undo_bind, if_neg (by show s.pos + 1 ≠ 0; omega), adv_back]
         exact hG
-      refine u_number_spec ih ht h5 _ 2 (fun _ _ => rfl) ?_
+      refine u_number_spec ih hdp hn ht h5 _ 2 (fun _ _ => rfl) ?_
       intro _ hn2
       refine hback _ ?_
-      refine u_number_spec (s := { s with lastLine := t.line }) ih ht h5 _ 3 (fun _ _ => rfl) ?_
+      refine u_number_spec (s := { s with lastLine := t.line }) ih hdp hn ht h5 _ 3 (fun _ _ => rfl) ?_
       intro _ hn3
       refine hback _ ?_
-      refine u_number_spec (s := { s with lastLine := t.line }) ih ht h5 _ 7 (fun _ _ => rfl) ?_
+      refine u_number_spec (s := { s with lastLine := t.line }) ih hdp hn ht h5 _ 7 (fun _ _ => rfl) ?_
       intro _ hn7
       refine hback _ ?_
       rw [bind_eq, getDouble_eval ctx { s with lastLine := t.line } t ht h5]
@@ -438,22 +696,24 @@ theorem u_spec_step (f32 : List Char → Option (List Char)) (hat : AtomsOk e) {
         intro off
         refine USpec.step (s := s) (x := .double off r) (rel_adv ht (by omega) ⟨h5, hfl⟩)
           (neutral_atom ht (by omega) (by omega)) ?_
-        exact ih.u ctx isB _ _ hlt
+        exact ih.u ctx isB dp n _ _ hlt hdp hn
     rw [if_neg h5]
     by_cases h1 : t.ty = 1
     · rw [if_pos h1]
       split
-      · refine spec_bind trivial trivial ?_ ?_
+      · rename_i hb
+        obtain rfl := hn hb
+        refine spec_bind trivial trivial ?_ ?_
         · intro d s1 h
-          have := ih.ts ctx s hs
+          have := ih.ts ctx n s hs hdp ⟨t, ht, h1⟩
           rw [h] at this
           exact this
         · intro ts s1 h
-          have := ih.ts ctx s hs
+          have := ih.ts ctx n s hs hdp ⟨t, ht, h1⟩
           rw [h] at this
-          obtain ⟨items, rfl, hr, hn⟩ := this
-          refine USpec.step (x := .taggedStruct items) hr hn ?_
-          exact ih.u ctx isB _ s1 hr.2.1
+          obtain ⟨items, rfl, hr, hn'⟩ := this
+          refine USpec.step (x := .taggedStruct items) hr hn' ?_
+          exact ih.u ctx isB n n _ s1 hr.2.1 hdp hn
       · rename_i hb
         exact ⟨[], by simp, Rel.refl f32 s hs, Neutral.refl s, t, ht, .inr ⟨by simpa using hb, h1⟩⟩
     rw [if_neg h1]
@@ -463,13 +723,13 @@ theorem u_spec_step (f32 : List Char → Option (List Char)) (hat : AtomsOk e) {
     rw [if_neg h2]
     by_cases h3 : t.ty = 3
     · rw [if_pos h3]
-      exact ih.u ctx isB acc s hs
+      exact ih.u ctx isB dp n acc s hs hdp hn
     rw [if_neg h3]
     rw [bind_eq, getToken_eval, ht]
     dsimp only
     have h6 : t.ty = 6 := by omega
     refine USpec.skip (rel_adv_comment ht h6) (neutral_atom ht (by omega) (by omega)) ?_
-    exact ih.u ctx isB acc _ hlt
+    exact ih.u ctx isB dp n acc _ hlt hdp hn
 
 /-- what `get_next_tag_or_comment` does, as far as the fallback is concerned -/
 inductive NTOutcome (e : Env) (f32 : List Char → Option (List Char)) (s : PState) : PRes BlockContent → Prop where
@@ -477,13 +737,15 @@ inductive NTOutcome (e : Env) (f32 : List Char → Option (List Char)) (s : PSta
   | comment (tok : PTok) (off : Nat) (s1 : PState) : e.toks[s.pos]? = some tok → tok.ty = 6 → s1.pos = s.pos + 1 →
       NTOutcome e f32 s (.ok (.comment tok off) s1)
   | block (tok : PTok) (off : Nat) (s1 : PState) : Rel e f32 s s1 [.begin_, .ident tok.text] →
-      (∀ st, scan .normal st (e.toks.toList.drop s.pos) = scan .normal (tok.text :: st) (e.toks.toList.drop s1.pos)) →
+      (∀ st : List (List Char), scanV maxNestingDepth .normal st (e.toks.toList.drop s.pos) =
+        if maxNestingDepth ≤ st.length then .tooDeep
+        else scanV maxNestingDepth .normal (tok.text :: st) (e.toks.toList.drop s1.pos)) →
       NTOutcome e f32 s (.ok (.block tok true off) s1)
-  | kw (tok : PTok) (off : Nat) (s1 : PState) : Rel e f32 s s1 [.ident tok.text] → Neutral e s s1 →
-      NTOutcome e f32 s (.ok (.block tok false off) s1)
+  | kw (tok : PTok) (off : Nat) (s1 : PState) : Rel e f32 s s1 [.ident tok.text] → (∀ n, Neutral e n s s1) →
+      (∀ t, e.toks[s.pos]? = some t → t.ty ≠ 1) → NTOutcome e f32 s (.ok (.block tok false off) s1)
   | none (s1 : PState) : s1.pos = s.pos → (∀ t, e.toks[s.pos]? = some t → t.ty ≠ 1) →
       NTOutcome e f32 s (.ok .none s1)
-  | err (d : Diag) (s1 : PState) : s1.pos = s.pos → Bad e s → NTOutcome e f32 s (.err d s1)
+  | err (d : Diag) (s1 : PState) : s1.pos = s.pos → (∀ n, Bad e n .reject s) → NTOutcome e f32 s (.err d s1)
 
 theorem getNextTagOrComment_outcome (f32 : List Char → Option (List Char)) (ctx : Ctx) (s : PState) :
     NTOutcome e f32 s (getNextTagOrComment ctx e s) := by
@@ -516,22 +778,22 @@ theorem getNextTagOrComment_outcome (f32 : List Char → Option (List Char)) (ct
       refine .block tok off s1 (r1.trans r2) ?_
       intro st
       have hdrop' : e.toks.toList.drop (s.pos + 1) = cs ++ tok :: e.toks.toList.drop s1.pos := hdrop
-      rw [hd, scan_normal, if_pos hb1, hdrop', scan_comments _ _ _ _ hc, scan_beginTag, if_neg (by omega), if_pos hty]
+      rw [hd, scanV_normal, if_pos hb1, hdrop', scan_comments _ _ _ _ _ hc, scanV_beginTag, if_neg (by omega), if_pos hty]
     | eof cs d s1 hc hdrop =>
       simp only [setTokenpos_bind]
       refine .err d _ rfl ?_
-      intro st
+      intro n st _
       have hdrop' : e.toks.toList.drop (s.pos + 1) = cs := hdrop
-      rw [hd, scan_normal, if_pos hb1, hdrop']
-      have := scan_comments .beginTag st cs [] hc
+      rw [hd, scanV_normal, if_pos hb1, hdrop']
+      have := scan_comments maxNestingDepth .beginTag st cs [] hc
       rw [List.append_nil] at this
-      rw [this, scan_nil]
+      rw [this, scanV_nil]
     | other cs t' rest d s1 hc h6 hne hdrop =>
       simp only [setTokenpos_bind]
       refine .err d _ rfl ?_
-      intro st
+      intro n st _
       have hdrop' : e.toks.toList.drop (s.pos + 1) = cs ++ t' :: rest := hdrop
-      rw [hd, scan_normal, if_pos hb1, hdrop', scan_comments _ _ _ _ hc, scan_beginTag, if_neg h6, if_neg hne]
+      rw [hd, scanV_normal, if_pos hb1, hdrop', scan_comments _ _ _ _ _ hc, scanV_beginTag, if_neg h6, if_neg hne]
   · rename_i hnc hnb
     rw [bind_eq]
     unfold attempt
@@ -545,9 +807,15 @@ theorem getNextTagOrComment_outcome (f32 : List Char → Option (List Char)) (ct
       cases hx with
       | ok cs _ _ hc hty hdrop hpos hsz =>
         have hxx := expectToken_ok (by decide) hr
-        refine .kw tok off s1 (rel_single (w := .ident tok.text) hxx ⟨hty, rfl⟩) ?_
-        intro st
-        rw [hdrop, scan_comments _ _ _ _ hc, scan_normal, if_neg (by omega), if_neg (by omega)]
+        refine .kw tok off s1 (rel_single (w := .ident tok.text) hxx ⟨hty, rfl⟩) ?_ ?_
+        · intro n st _
+          rw [hdrop, scan_comments _ _ _ _ _ hc, scanV_normal, if_neg (by omega), if_neg (by omega)]
+        · intro t ht h1
+          rw [← ho] at hnb
+          obtain ⟨ty, text, line, fileid, sym, fl⟩ := t
+          dsimp only at h1
+          subst h1
+          exact hnb _ _ _ _ _ ht
     | err d s1 =>
       dsimp only
       refine spec_lineOffset .panic ?_
@@ -564,7 +832,7 @@ theorem getNextTagOrComment_outcome (f32 : List Char → Option (List Char)) (ct
     | fuel => rw [hr] at hx; cases hx
 
 def SkipSpec (e : Env) (f32 : List Char → Option (List Char)) (s : PState) : PRes Unit → Prop
-  | .ok _ s1 => Rel e f32 s s1 [] ∧ Neutral e s s1
+  | .ok _ s1 => Rel e f32 s s1 [] ∧ ∀ n, Neutral e n s s1
   | .err _ _ => False
   | .panic => False
   | .fuel => True
@@ -576,7 +844,7 @@ theorem skipComments_spec (f32 : List Char → Option (List Char)) (ctx : Ctx) :
     rw [skipComments]
     simp only [peekToken_bind]
     cases ht : e.toks[s.pos]? with
-    | none => exact ⟨Rel.refl f32 s hs, Neutral.refl s⟩
+    | none => exact ⟨Rel.refl f32 s hs, fun _ => Neutral.refl s⟩
     | some t =>
       dsimp only
       split
@@ -590,16 +858,51 @@ theorem skipComments_spec (f32 : List Char → Option (List Char)) (ctx : Ctx) :
         cases r with
         | ok u s1 =>
           have r1 := rel_adv_comment (f32 := f32) ht h6
-          exact ⟨by simpa using r1.trans ih.1, (neutral_atom ht (by omega) (by omega)).trans ih.2⟩
+          exact ⟨by simpa using r1.trans ih.1, fun n => (neutral_atom ht (by omega) (by omega)).trans (ih.2 n)⟩
         | err d s1 => exact ih
         | panic => exact ih
         | fuel => trivial
-      · exact ⟨Rel.refl f32 s hs, Neutral.refl s⟩
+      · exact ⟨Rel.refl f32 s hs, fun _ => Neutral.refl s⟩
+
+/-- no comment at the cursor: nothing happens -/
+theorem skipComments_nop (ctx : Ctx) (fuel : Nat) {s : PState} {t : PTok} (ht : e.toks[s.pos]? = some t) (h6 : t.ty ≠ 6) :
+    skipComments ctx (fuel + 1) e s = .ok () s := by
+  rw [skipComments]
+  simp only [peekToken_bind]
+  rw [ht]
+  dsimp only
+  rw [if_neg h6]
+  rfl
+
+/-- the errors of `expect_token` -/
+theorem expectTokenAux_err_kind (ctx : Ctx) (ty : Nat) : ∀ (fuel : Nat) (s : PState) (d : Diag) (s' : PState),
+    expectTokenAux ctx ty fuel e s = .err d s' → d.kind = .unexpectedEOF ∨ d.kind = .unexpectedTokenType
+  | 0, _, _, _, h => by rw [expectTokenAux] at h; cases h
+  | fuel + 1, s, d, s', h => by
+    rw [expectTokenAux, bind_eq, getToken_eval] at h
+    cases ht : e.toks[s.pos]? with
+    | none => rw [ht] at h; cases h; exact .inl rfl
+    | some t =>
+      rw [ht] at h
+      dsimp only at h
+      split at h
+      · exact expectTokenAux_err_kind ctx ty fuel _ d s' h
+      · split at h
+        · cases h; exact .inr rfl
+        · cases h
+
+theorem expectToken_err_kind {ctx : Ctx} {ty : Nat} {s : PState} {d : Diag} {s' : PState}
+    (h : expectToken ctx ty e s = .err d s') : d.kind ≠ .nestingTooDeep := by
+  unfold expectToken at h
+  simp only [getEnv_bind] at h
+  rcases expectTokenAux_err_kind ctx ty _ s d s' h with h | h <;> rw [h] <;> decide
 
 /-- the `/end TAG` of an inner block, as the scanner sees it -/
 def EndSpec (e : Env) (tag : List Char) (s : PState) : PRes Nat → Prop
-  | .ok _ s' => ∀ st, scan .normal (tag :: st) (e.toks.toList.drop s.pos) = scan .normal st (e.toks.toList.drop s'.pos)
-  | .err _ _ => ∀ st, scan .normal (tag :: st) (e.toks.toList.drop s.pos) = false
+  | .ok _ s' => ∀ st, scanV maxNestingDepth .normal (tag :: st) (e.toks.toList.drop s.pos) =
+      scanV maxNestingDepth .normal st (e.toks.toList.drop s'.pos)
+  | .err d _ => d.kind ≠ .nestingTooDeep ∧
+      ∀ st, scanV maxNestingDepth .normal (tag :: st) (e.toks.toList.drop s.pos) = .reject
   | .panic => True
   | .fuel => True
 
@@ -620,38 +923,42 @@ theorem endOfTagged_block_spec (newctx : Ctx) (tag : List Char) {s : PState} {t 
     have hdrop' : e.toks.toList.drop (s.pos + 1) = cs ++ tok :: e.toks.toList.drop s1.pos := hdrop
     split
     · rename_i hne
+      refine ⟨by simp, ?_⟩
       intro st
-      rw [hd, scan_normal, if_neg (by omega), if_pos h2]
+      rw [hd, scanV_normal, if_neg (by omega), if_pos h2]
       dsimp only
-      rw [hdrop', scan_comments _ _ _ _ hc, scan_endTag, if_neg (by omega), if_pos hty]
+      rw [hdrop', scan_comments _ _ _ _ _ hc, scanV_endTag, if_neg (by omega), if_pos hty]
       dsimp only
       rw [if_neg hne]
     · rename_i heq
       intro st
-      rw [hd, scan_normal, if_neg (by omega), if_pos h2]
+      rw [hd, scanV_normal, if_neg (by omega), if_pos h2]
       dsimp only
-      rw [hdrop', scan_comments _ _ _ _ hc, scan_endTag, if_neg (by omega), if_pos hty]
+      rw [hdrop', scan_comments _ _ _ _ _ hc, scanV_endTag, if_neg (by omega), if_pos hty]
       dsimp only
       rw [if_pos (by simpa using heq)]
   | eof cs d s1 hc hdrop =>
+    refine ⟨expectToken_err_kind hr, ?_⟩
     intro st
     have hdrop' : e.toks.toList.drop (s.pos + 1) = cs := hdrop
-    rw [hd, scan_normal, if_neg (by omega), if_pos h2]
+    rw [hd, scanV_normal, if_neg (by omega), if_pos h2]
     dsimp only
     rw [hdrop']
-    have := scan_comments .endTag (tag :: st) cs [] hc
+    have := scan_comments maxNestingDepth .endTag (tag :: st) cs [] hc
     rw [List.append_nil] at this
-    rw [this, scan_nil]
+    rw [this, scanV_nil]
   | other cs t' rest d s1 hc h6 hne hdrop =>
+    refine ⟨expectToken_err_kind hr, ?_⟩
     intro st
     have hdrop' : e.toks.toList.drop (s.pos + 1) = cs ++ t' :: rest := hdrop
-    rw [hd, scan_normal, if_neg (by omega), if_pos h2]
+    rw [hd, scanV_normal, if_neg (by omega), if_pos h2]
     dsimp only
-    rw [hdrop', scan_comments _ _ _ _ hc, scan_endTag, if_neg h6, if_neg hne]
+    rw [hdrop', scan_comments _ _ _ _ _ hc, scanV_endTag, if_neg h6, if_neg hne]
 
-theorem LSpec.step {f32 : List Char → Option (List Char)} {acc : List (TItem Gen)} {s s1 : PState} {it : TItem Gen}
-    {r : PRes (List (TItem Gen))} (hrel : Rel e f32 s s1 (valuesT [it])) (hn : Neutral e s s1)
-    (h : LSpec e f32 (it :: acc) s1 r) : LSpec e f32 acc s r := by
+theorem LSpec.step {f32 : List Char → Option (List Char)} {n : Nat} {acc : List (TItem Gen)} {s s1 : PState}
+    {it : TItem Gen}
+    {r : PRes (List (TItem Gen))} (hrel : Rel e f32 s s1 (valuesT [it])) (hn : Neutral e n s s1)
+    (h : LSpec e f32 n (it :: acc) s1 r) : LSpec e f32 n acc s r := by
   cases r with
   | ok items s' =>
     obtain ⟨new, hg, hr, hn', hstop⟩ := h
@@ -662,9 +969,9 @@ theorem LSpec.step {f32 : List Char → Option (List Char)} {acc : List (TItem G
   | panic => trivial
   | fuel => trivial
 
-theorem LSpec.skip {f32 : List Char → Option (List Char)} {acc : List (TItem Gen)} {s s1 : PState}
-    {r : PRes (List (TItem Gen))} (hrel : Rel e f32 s s1 []) (hn : Neutral e s s1)
-    (h : LSpec e f32 acc s1 r) : LSpec e f32 acc s r := by
+theorem LSpec.skip {f32 : List Char → Option (List Char)} {n : Nat} {acc : List (TItem Gen)} {s s1 : PState}
+    {r : PRes (List (TItem Gen))} (hrel : Rel e f32 s s1 []) (hn : Neutral e n s s1)
+    (h : LSpec e f32 n acc s1 r) : LSpec e f32 n acc s r := by
   cases r with
   | ok items s' =>
     obtain ⟨new, hg, hr, hn', hstop⟩ := h
@@ -674,8 +981,9 @@ theorem LSpec.skip {f32 : List Char → Option (List Char)} {acc : List (TItem G
   | fuel => trivial
 
 theorem l_spec_step (f32 : List Char → Option (List Char)) {fuel : Nat}
-    (ih : AllSpec e f32 fuel) (ctx : Ctx) (acc : List (TItem Gen)) (s : PState) (hs : s.pos ≤ e.toks.size) :
-    LSpec e f32 acc s (unknownTsLoop (fuel + 1) ctx acc e s) := by
+    (ih : AllSpec e f32 fuel) (ctx : Ctx) (dp : Nat) (acc : List (TItem Gen)) (s : PState) (hs : s.pos ≤ e.toks.size)
+    (hpre : dp < maxNestingDepth ∨ ∃ t, e.toks[s.pos]? = some t ∧ t.ty = 1) :
+    LSpec e f32 dp acc s (unknownTsLoop (fuel + 1) ctx dp acc e s) := by
   rw [unknownTsLoop.eq_def]
   dsimp only
   have ho := getNextTagOrComment_outcome (e := e) f32 ctx s
@@ -686,63 +994,84 @@ theorem l_spec_step (f32 : List Char → Option (List Char)) {fuel : Nat}
   | panic => trivial
   | comment tok off s1 ht h6 hp =>
     have hlt := lt_of_getElem?_some ht
+    have hdp : dp < maxNestingDepth := by
+      rcases hpre with h | ⟨t, ht', h1⟩
+      · exact h
+      · rw [ht] at ht'; cases ht'; omega
     exact LSpec.skip ((rel_adv_comment ht h6).samePos (by rw [hp]; rfl))
-      ((neutral_atom ht (by omega) (by omega)).samePos (by rw [hp]; rfl)) (ih.l ctx acc s1 (by omega))
+      ((neutral_atom ht (by omega) (by omega)).samePos (by rw [hp]; rfl)) (ih.l ctx dp acc s1 (by omega) (.inl hdp))
   | block tok off s1 hrel hscan =>
     dsimp only
     simp only [getNextId_bind]
-    have hu := ih.u ⟨tok.text, tok.fileid, tok.line⟩ true [] { s1 with seqId := s1.seqId + 1 } hrel.2.1
-    refine spec_bind trivial trivial ?_ ?_
-    · intro d s2 h
-      rw [h] at hu
-      intro st
-      rw [hscan]
-      exact hu _
-    · intro result s2 h
-      rw [h] at hu
-      obtain ⟨new, hres, hr2, hn2, t2, ht2, hstop⟩ := hu
-      have h22 : t2.ty = 2 := by
-        rcases hstop with h | ⟨h, _⟩
-        · exact h
-        · cases h
-      have hes := endOfTagged_block_spec ⟨tok.text, tok.fileid, tok.line⟩ tok.text ht2 h22
+    by_cases hdp : dp + 1 ≤ maxNestingDepth
+    · have hu := ih.u ⟨tok.text, tok.fileid, tok.line⟩ true (dp + 1) (dp + 1) [] { s1 with seqId := s1.seqId + 1 }
+        hrel.2.1 hdp (fun _ => rfl)
       refine spec_bind trivial trivial ?_ ?_
-      · intro d s3 h3
-        rw [h3] at hes
-        intro st
-        rw [hscan, hn2 (tok.text :: st)]
-        exact hes st
-      · intro endOff s3 h3
-        rw [h3] at hes
-        have hr3 := endOfTagged_ok f32 h3 hr2.2.1
-        rw [if_pos rfl] at hr3
-        have hr2' : Rel e f32 s1 s2 (valuesL new) := hr2.fromPos rfl
-        refine LSpec.step (it := ⟨tok.line, s1.seqId + 1, off, endOff, tok.text, result, true⟩) ?_ ?_
-          (ih.l ctx _ s3 hr3.2.1)
-        · have := (hrel.trans hr2').trans hr3
-          subst hres
-          simpa [valuesT, values] using this
-        · intro st
-          rw [hscan, hn2 (tok.text :: st)]
-          exact hes st
-  | kw tok off s1 hrel hn =>
+      · intro d s2 h
+        rw [h] at hu
+        intro st hst
+        rw [hscan, if_neg (by omega)]
+        exact hu _ (by simp [hst])
+      · intro result s2 h
+        rw [h] at hu
+        obtain ⟨new, hres, hr2, hn2, t2, ht2, hstop⟩ := hu
+        have h22 : t2.ty = 2 := by
+          rcases hstop with h | ⟨h, _⟩
+          · exact h
+          · cases h
+        have hes := endOfTagged_block_spec ⟨tok.text, tok.fileid, tok.line⟩ tok.text ht2 h22
+        refine spec_bind trivial trivial ?_ ?_
+        · intro d s3 h3
+          rw [h3] at hes
+          intro st hst
+          rw [hscan, if_neg (by omega), hn2 (tok.text :: st) (by simp [hst]), hes.2 st]
+          unfold verdictOf
+          rw [if_neg hes.1]
+        · intro endOff s3 h3
+          rw [h3] at hes
+          have hr3 := endOfTagged_ok f32 h3 hr2.2.1
+          rw [if_pos rfl] at hr3
+          have hr2' : Rel e f32 s1 s2 (valuesL new) := hr2.fromPos rfl
+          refine LSpec.step (it := ⟨tok.line, s1.seqId + 1, off, endOff, tok.text, result, true⟩) ?_ ?_
+            (ih.l ctx dp _ s3 hr3.2.1 (.inl (by omega)))
+          · have := (hrel.trans hr2').trans hr3
+            subst hres
+            simpa [valuesT, values] using this
+          · intro st hst
+            rw [hscan, if_neg (by omega), hn2 (tok.text :: st) (by simp [hst])]
+            exact hes st
+    · -- the item would be block number `MAX_NESTING_DEPTH + 1`
+      rw [bind_eq]
+      rcases unknownIfdata_deep (e := e) fuel ⟨tok.text, tok.fileid, tok.line⟩ true (dp + 1) []
+        { s1 with seqId := s1.seqId + 1 } (by omega) with h | h
+      · rw [h]; trivial
+      · rw [h]
+        intro st hst
+        rw [hscan, if_pos (by omega)]
+        rfl
+  | kw tok off s1 hrel hn hnb =>
     dsimp only
     simp only [getNextId_bind]
-    have hu := ih.u ⟨tok.text, tok.fileid, tok.line⟩ false [] { s1 with seqId := s1.seqId + 1 } hrel.2.1
+    have hdp : dp < maxNestingDepth := by
+      rcases hpre with h | ⟨t, ht', h1⟩
+      · exact h
+      · exact absurd h1 (hnb t ht')
+    have hu := ih.u ⟨tok.text, tok.fileid, tok.line⟩ false (dp + 1) dp [] { s1 with seqId := s1.seqId + 1 } hrel.2.1
+      (by omega) (fun h => by cases h)
     refine spec_bind trivial trivial ?_ ?_
     · intro d s2 h
       rw [h] at hu
-      exact Bad.of_neutral hn hu
+      exact Bad.of_neutral (hn dp) hu
     · intro result s2 h
       rw [h] at hu
       obtain ⟨new, hres, hr2, hn2, _⟩ := hu
       have hr2' : Rel e f32 s1 s2 (valuesL new) := hr2.fromPos rfl
-      have hn2' : Neutral e s1 s2 := hn2.fromPos rfl
+      have hn2' : Neutral e dp s1 s2 := hn2.fromPos rfl
       unfold endOfTagged
       rw [if_neg (by simp)]
       rw [pure_bind_eval]
-      refine LSpec.step (it := ⟨tok.line, s1.seqId + 1, off, 0, tok.text, result, false⟩) ?_ (hn.trans hn2')
-        (ih.l ctx _ s2 hr2.2.1)
+      refine LSpec.step (it := ⟨tok.line, s1.seqId + 1, off, 0, tok.text, result, false⟩) ?_ ((hn dp).trans hn2')
+        (ih.l ctx dp _ s2 hr2.2.1 (.inl hdp))
       have := hrel.trans hr2'
       subst hres
       simpa [valuesT, values] using this
@@ -754,55 +1083,54 @@ theorem l_spec_step (f32 : List Char → Option (List Char)) {fuel : Nat}
   | err d s1 hp hbad =>
     refine ⟨[], by simp, (Rel.refl f32 s hs).samePos hp, (Neutral.refl s).samePos hp, ?_⟩
     intro t _ _
-    exact hbad.fromPos hp
+    exact (hbad dp).fromPos hp
 
 theorem ts_spec_step (f32 : List Char → Option (List Char)) {fuel : Nat}
-    (ih : AllSpec e f32 fuel) (ctx : Ctx) (s : PState) (hs : s.pos ≤ e.toks.size) :
-    TSSpec e f32 s (unknownTaggedstruct (fuel + 1) ctx e s) := by
+    (ih : AllSpec e f32 fuel) (ctx : Ctx) (dp : Nat) (s : PState) (hs : s.pos ≤ e.toks.size)
+    (hb : ∃ t, e.toks[s.pos]? = some t ∧ t.ty = 1) :
+    TSSpec e f32 dp s (unknownTaggedstruct (fuel + 1) ctx dp e s) := by
   rw [unknownTaggedstruct.eq_def]
   dsimp only
   simp only [getEnv_bind]
-  have hsk := skipComments_spec f32 ctx (e.toks.size + 1) s hs
+  obtain ⟨tb, htb, hb1⟩ := hb
+  rw [bind_eq, skipComments_nop ctx _ htb (by omega)]
+  dsimp only
+  have hl := ih.l ctx dp [] s hs (.inr ⟨tb, htb, hb1⟩)
   refine spec_bind trivial trivial ?_ ?_
-  · intro d s1 h; rw [h] at hsk; exact hsk.elim
-  · intro u s1 h
-    rw [h] at hsk
-    obtain ⟨hr1, hn1⟩ := hsk
-    have hl := ih.l ctx [] s1 hr1.2.1
-    refine spec_bind trivial trivial ?_ ?_
-    · intro d s2 h2; rw [h2] at hl; exact Bad.of_neutral hn1 hl
-    · intro items s2 h2
-      rw [h2] at hl
-      obtain ⟨new, hitems, hr2, hn2, hstop⟩ := hl
-      simp only [List.reverse_nil, List.nil_append] at hitems
-      subst hitems
-      simp only [peekToken_bind]
-      cases ht : e.toks[s2.pos]? with
-      | none => exact ⟨items, rfl, by simpa using hr1.trans hr2, hn1.trans hn2⟩
-      | some t =>
-        dsimp only
-        split
-        · rename_i h1
-          exact Bad.of_neutral (hn1.trans hn2) (hstop t ht h1)
-        · exact ⟨items, rfl, by simpa using hr1.trans hr2, hn1.trans hn2⟩
+  · intro d s2 h2; rw [h2] at hl; exact hl
+  · intro items s2 h2
+    rw [h2] at hl
+    obtain ⟨new, hitems, hr2, hn2, hstop⟩ := hl
+    simp only [List.reverse_nil, List.nil_append] at hitems
+    subst hitems
+    simp only [peekToken_bind]
+    cases ht : e.toks[s2.pos]? with
+    | none => exact ⟨items, rfl, hr2, hn2⟩
+    | some t =>
+      dsimp only
+      split
+      · rename_i h1
+        exact Bad.of_neutral hn2 (hstop t ht h1)
+      · exact ⟨items, rfl, hr2, hn2⟩
 
 theorem allSpec (f32 : List Char → Option (List Char)) (hat : AtomsOk e) :
     ∀ fuel, AllSpec e f32 fuel
   | 0 => allSpec_zero f32
   | fuel + 1 =>
     have ih := allSpec f32 hat fuel
-    ⟨fun ctx isB acc s hs => u_spec_step f32 hat ih ctx isB acc s hs,
-     fun ctx s hs => ts_spec_step f32 ih ctx s hs,
-     fun ctx acc s hs => l_spec_step f32 ih ctx acc s hs⟩
+    ⟨fun ctx isB dp n acc s hs hdp hn => u_spec_step f32 hat ih ctx isB dp n acc s hs hdp hn,
+     fun ctx dp s hs _ hb => ts_spec_step f32 ih ctx dp s hs hb,
+     fun ctx dp acc s hs hpre => l_spec_step f32 ih ctx dp acc s hs hpre⟩
 
+/-- `parse_unknown_ifdata_start`: a result means `accept`, `NestingTooDeep` means `tooDeep`, any other error `reject` -/
 def USSpec (e : Env) (f32 : List Char → Option (List Char)) (s : PState) : PRes Gen → Prop
-  | .ok g s' => Rel e f32 s s' (values true g) ∧ Neutral e s s' ∧ AtEnd e s'
-  | .err _ _ => Bad e s
+  | .ok g s' => Rel e f32 s s' (values true g) ∧ Neutral e 0 s s' ∧ AtEnd e s'
+  | .err d _ => Bad e 0 (verdictOf d.kind) s
   | .panic => True
   | .fuel => True
 
 theorem USSpec.of_u {f32 : List Char → Option (List Char)} {s : PState} {r : PRes Gen}
-    (h : USpec e f32 true [] s r) : USSpec e f32 s r := by
+    (h : USpec e f32 true 0 [] s r) : USSpec e f32 s r := by
   cases r with
   | ok g s' =>
     obtain ⟨new, hg, hr, hn, t, ht, hstop⟩ := h
@@ -820,20 +1148,21 @@ theorem unknownStart_spec (f32 : List Char → Option (List Char)) (hat : AtomsO
   unfold unknownStart
   simp only [getEnv_bind, peekToken_bind]
   have hA := allSpec f32 hat (unknownFuel e.toks.size)
+  have h0 : 0 ≤ maxNestingDepth := Nat.zero_le _
   cases ht : e.toks[s.pos]? with
-  | none => exact USSpec.of_u (hA.u ctx true [] s hs)
+  | none => exact USSpec.of_u (hA.u ctx true 0 0 [] s hs h0 (fun _ => rfl))
   | some t =>
     have hlt := lt_of_getElem?_some ht
     dsimp only
     split
-    · rename_i h0
+    · rename_i h0'
       rw [bind_eq, getToken_eval, ht]
       dsimp only
       refine spec_lineOffset trivial ?_
       intro startOff
       simp only [getNextId_bind]
-      have hu := hA.u ⟨t.text, t.fileid, t.line⟩ true []
-        { pos := s.pos + 1, lastLine := t.line, seqId := s.seqId + 1, log := s.log, ver := s.ver } hlt
+      have hu := hA.u ⟨t.text, t.fileid, t.line⟩ true 0 0 []
+        { pos := s.pos + 1, lastLine := t.line, seqId := s.seqId + 1, log := s.log, ver := s.ver } hlt h0 (fun _ => rfl)
       refine spec_bind trivial trivial ?_ ?_
       · intro d s2 h
         rw [h] at hu
@@ -842,7 +1171,7 @@ theorem unknownStart_spec (f32 : List Char → Option (List Char)) (hat : AtomsO
         rw [h] at hu
         obtain ⟨new, hres, hr2, hn2, t2, ht2, hstop⟩ := hu
         have hr2' : Rel e f32 (adv s t) s2 (valuesL new) := hr2.fromPos rfl
-        have hn2' : Neutral e (adv s t) s2 := hn2.fromPos rfl
+        have hn2' : Neutral e 0 (adv s t) s2 := hn2.fromPos rfl
         have hpos : s.pos + 1 ≤ s2.pos := hr2'.1
         simp only [undo_bind]
         rw [if_neg (by omega)]
@@ -859,7 +1188,7 @@ theorem unknownStart_spec (f32 : List Char → Option (List Char)) (hat : AtomsO
         unfold attempt
         rw [hgt]
         dsimp only
-        have r1 : Rel e f32 s (adv s t) [.ident t.text] := rel_adv ht (by omega) ⟨h0, rfl⟩
+        have r1 : Rel e f32 s (adv s t) [.ident t.text] := rel_adv ht (by omega) ⟨h0', rfl⟩
         refine ⟨?_, ?_, t2, ?_, ?_⟩
         · have := r1.trans hr2'
           subst hres
@@ -872,6 +1201,6 @@ theorem unknownStart_spec (f32 : List Char → Option (List Char)) (hat : AtomsO
         · rcases hstop with h | ⟨h, _⟩
           · exact h
           · cases h
-    · exact USSpec.of_u (hA.u ctx true [] s hs)
+    · exact USSpec.of_u (hA.u ctx true 0 0 [] s hs h0 (fun _ => rfl))
 
 end A2l.IfData
